@@ -209,6 +209,14 @@ Theorem C17_list_scoped_by_shard_keys : forall e cs, compile e = Ok cs -> in_qua
 Proof. exact list_scoped_by_shard_keys. Qed.
 Print Assumptions C17_list_scoped_by_shard_keys.
 
+(* ... and the List request (EVERY declaration the model compiles): its fields are the shard keys in
+   declaration order, then page and query; each key field of the List request is, as a whole field
+   (type, key options, required / optional flags), a field of the Get request and of the Events
+   request: Get, List and Events agree on the keys they share. *)
+Theorem C17_list_request_scoped_by_shard_keys : forall e cs, compile e = Ok cs -> spec_list_request e cs.
+Proof. exact list_request_scoped_by_shard_keys. Qed.
+Print Assumptions C17_list_request_scoped_by_shard_keys.
+
 (* a key that is BOTH primary and shard is one of List's parameters (every declaration) *)
 Theorem C17_primary_shard_key_in_list : forall e k, In k (e_keys e) ->
   key_typed k = true -> key_primary k = true -> k_shard k = true ->
